@@ -52,7 +52,7 @@ def scope(vc):
         from resonaate.data.resonaate_database import ResonaateDatabase
         from resonaate.data.events import getRelevantEvents, TargetTaskPriority
         from resonaate.data.agent import AgentModel
-        a, b = vc.int("engine_a", 1, 5), vc.int("engine_b", 6, 9)
+        a, b = vc.int("engine_a", 0, 5, special=[0]), vc.int("engine_b", 6, 9)
         db = ResonaateDatabase(db_path="sqlite://")
         db.insertData(AgentModel(unique_id=40001, name="t"))
         mk = lambda inst: TargetTaskPriority(scope=EventScope.TASK_REWARD_GENERATION.value, scope_instance_id=inst, start_time_jd=2459000.5,
@@ -74,9 +74,10 @@ def scope(vc):
     q = executed[-1]
     base = [("==", "scope", "task_reward_generation"), ("<=", "start", ub), (">", "end", lb)]
     vc.ensure("O-C01-scope.filters", sorted(map(_key, q.filters)) == sorted(map(_key, base)) and out == ["E1", "E2"])
-    out = f(db, EventScope.TASK_REWARD_GENERATION, lb, ub, scope_instance_id=7)
+    inst = vc.int("inst", 0, 10 ** 6)  # every instance id, 0 included
+    out = f(db, EventScope.TASK_REWARD_GENERATION, lb, ub, scope_instance_id=inst)
     q = executed[-1]
-    vc.ensure("O-C01-scope.instance", sorted(map(_key, q.filters)) == sorted(map(_key, base + [("==", "inst", 7)])))
+    vc.ensure("O-C01-scope.instance", sorted(map(_key, q.filters)) == sorted(map(_key, base + [("==", "inst", inst)])))
     handled = []
     evs = [_NS(handleEvent=lambda inst, k=k: handled.append((k, inst)), event_type="t") for k in range(2)]
     vc.stub(EV + "getRelevantEvents", lambda *a: evs)
